@@ -567,6 +567,8 @@ pub fn generate(rng: &mut Rng, tier: Tier, cases: &mut Vec<Case>) {
     bounded_cases(rng, n_bounded, cases);
     // (viii) the same solver object run again (run / run_with_upper_bound): reported value and cut stay
     rerun_cases(rng, n_bounded / 2, cases);
+    // (ix) high-degree nodes
+    hub_cases(rng, match tier { Tier::Quick => 180, Tier::Thorough => 3600 }, cases);
 }
 
 fn bounded_cases(rng: &mut Rng, count: usize, cases: &mut Vec<Case>) {
@@ -598,6 +600,46 @@ fn bounded_cases(rng: &mut Rng, count: usize, cases: &mut Vec<Case>) {
         };
         let b = b.clamp(0, i32::MAX as i64) as i32;
         cases.push(bounded_case("bounded", s, t, &es, b));
+    }
+}
+
+/// nodes of high degree (adjacency slices longer than 8 / 16 / 32 / 64 / 128 entries, where lookups in a slice
+/// may switch strategy): source -> hub(s) -> k spokes -> sink with random capacities and a few cross edges, ids
+/// permuted so that the hub is not node 0
+fn hub_cases(rng: &mut Rng, count: usize, cases: &mut Vec<Case>) {
+    let ks = [7usize, 8, 9, 15, 16, 17, 31, 32, 33, 63, 64, 65, 66, 100, 127, 128, 129, 200];
+    for i in 0..count {
+        let k = ks[i % ks.len()];
+        let hubs = 1 + rng.below(2) as usize;
+        // ids: 0 source, 1..=hubs hubs, then spokes, last = sink
+        let n = 2 + hubs + k;
+        let sink = n - 1;
+        let mut es: Vec<E> = Vec::new();
+        for h in 1..=hubs {
+            es.push((0, h, rng.range(1, 400) as i32));
+            for j in 0..k {
+                let sp = 1 + hubs + j;
+                if hubs == 1 || rng.chance(2, 3) {
+                    es.push((h, sp, rng.range(0, 5) as i32));
+                }
+            }
+        }
+        for j in 0..k {
+            let sp = 1 + hubs + j;
+            es.push((sp, sink, rng.range(0, 4) as i32));
+            if rng.chance(1, 6) {
+                let other = 1 + hubs + rng.below(k as u64) as usize;
+                es.push((sp, other, rng.range(0, 3) as i32));
+            }
+            if rng.chance(1, 8) {
+                es.push((sp, 1, rng.range(0, 3) as i32)); // back to the first hub: it has in- and out-edges
+            }
+        }
+        rng.shuffle(&mut es);
+        let (s, t, es) = permute(rng, n, 0, sink, &es);
+        if in_domain(&es, s, t) {
+            cases.push(case_from("hub", s, t, &es));
+        }
     }
 }
 
